@@ -19,8 +19,9 @@
 (* before the rename (the property demands unchanged permission bits at     *)
 (* every moment); Variant = "asimpl" drops that guard (what main.go does),  *)
 (* Variant = "inplace" truncates and rewrites the target.  TLC proves       *)
-(* Atomic for "intended" and refutes it for the other two (FmtWriteBad*.cfg,*)
-(* a sanity check that the invariant can fail).                             *)
+(* Atomic for "intended"; for the other two it must find states violating   *)
+(* it (operator Refuted: a sanity check that the invariant can fail; with   *)
+(* Variant = "all" one TLC run covers the three protocols).                 *)
 (*                                                                         *)
 (* Faults: at most one per behaviour.  Fail(c, errno) - call c returns an   *)
 (* error and has no effect; Kill(c) - the process receives SIGKILL at the   *)
@@ -37,7 +38,7 @@
 (***************************************************************************)
 EXTENDS Naturals, Sequences, FiniteSets, TLC, Json
 
-CONSTANT Variant      \* "intended" | "asimpl" | "inplace"
+CONSTANT Variant      \* "intended" | "asimpl" | "inplace" | "all" (each behaviour picks one)
 
 Modes   == {"0644", "0600", "0755", "0444"}
 TmpMode == "0600"                   \* what os.CreateTemp asks for
@@ -51,6 +52,7 @@ Calls     == FsCalls \cup {"exit"}
 Essential == {"open_src", "read_src", "create_tmp", "write_tmp", "chmod_tmp", "close_tmp", "rename"}
 
 VARIABLES
+  variant, \* the protocol of this behaviour (never changes)
   op,      \* which command line
   files,   \* kinds of the files named on the command line (never changes)
   cur,     \* index of the file being processed
@@ -62,14 +64,18 @@ VARIABLES
   fault,   \* the one fault of this behaviour, once it has happened
   exit     \* "none" | "zero" | "nonzero" | "killed"
 
-vars == <<op, files, cur, omode, target, temp, srcopen, pc, fault, exit>>
+vars == <<variant, op, files, cur, omode, target, temp, srcopen, pc, fault, exit>>
 
 NoTemp  == [exists |-> FALSE, content |-> "none", mode |-> "none", open |-> FALSE]
 NoFault == [type |-> "none", call |-> "-", errno |-> "-"]
 kind    == files[cur]
 Target0(m) == [exists |-> TRUE, content |-> "orig", mode |-> m]
 
+Variants == IF Variant = "all" THEN {"intended", "asimpl", "inplace"} ELSE {Variant}
+
 InitFor(o, fs, m) ==
+  \* the deviating protocols are only there to be refuted: one input, one mode is enough
+  /\ variant \in (IF o = "write" /\ fs = <<"unfmt">> /\ m = "0644" THEN Variants ELSE {"intended"})
   /\ op = o /\ files = fs /\ cur = 1 /\ omode = m
   /\ target = Target0(m) /\ temp = NoTemp /\ srcopen = FALSE
   /\ pc = "start" /\ fault = NoFault /\ exit = "none"
@@ -91,7 +97,7 @@ CallEnabled(c) ==
        [] c = "stat_src"   -> srcopen
        [] c = "read_src"   -> srcopen /\ pc \in {"opened", "read"}
        [] c = "close_src"  -> srcopen /\ pc # "opened"
-       [] c = "create_tmp" -> pc = "parsed" /\ op = "write" /\ Variant # "inplace"
+       [] c = "create_tmp" -> pc = "parsed" /\ op = "write" /\ variant # "inplace"
        [] c = "write_tmp"  -> pc = "created" /\ temp.open
        [] c = "chmod_tmp"  -> temp.exists /\ pc \in {"created", "written"}
        [] c = "close_tmp"  -> temp.open /\ pc \in {"written", "abort"}
@@ -104,68 +110,68 @@ CallEnabled(c) ==
 
 (* the effect of a successful call *)
 OpenSrc  == /\ CallEnabled("open_src") /\ srcopen' = TRUE /\ pc' = "opened"
-            /\ UNCHANGED <<op, files, cur, omode, target, temp, fault, exit>>
+            /\ UNCHANGED <<variant, op, files, cur, omode, target, temp, fault, exit>>
 StatSrc  == CallEnabled("stat_src") /\ UNCHANGED vars
 ReadSrc  == /\ CallEnabled("read_src") /\ pc' = "read"
-            /\ UNCHANGED <<op, files, cur, omode, target, temp, srcopen, fault, exit>>
+            /\ UNCHANGED <<variant, op, files, cur, omode, target, temp, srcopen, fault, exit>>
 ReadStdin == /\ Running /\ op = "checkstdin" /\ pc = "start" /\ pc' = "read"
-             /\ UNCHANGED <<op, files, cur, omode, target, temp, srcopen, fault, exit>>
+             /\ UNCHANGED <<variant, op, files, cur, omode, target, temp, srcopen, fault, exit>>
 CloseSrc == /\ CallEnabled("close_src") /\ srcopen' = FALSE
-            /\ UNCHANGED <<op, files, cur, omode, target, temp, pc, fault, exit>>
+            /\ UNCHANGED <<variant, op, files, cur, omode, target, temp, pc, fault, exit>>
 StatTgt  == CallEnabled("stat_tgt") /\ UNCHANGED vars
 Other    == CallEnabled("other") /\ UNCHANGED vars
 
 \* format(): nothing is written before the whole input has parsed
 ParseOK   == /\ Running /\ pc = "read" /\ kind # "bad" /\ pc' = "parsed"
-             /\ UNCHANGED <<op, files, cur, omode, target, temp, srcopen, fault, exit>>
+             /\ UNCHANGED <<variant, op, files, cur, omode, target, temp, srcopen, fault, exit>>
 ParseFail == /\ Running /\ pc = "read" /\ kind = "bad" /\ pc' = "abort"
-             /\ UNCHANGED <<op, files, cur, omode, target, temp, srcopen, fault, exit>>
+             /\ UNCHANGED <<variant, op, files, cur, omode, target, temp, srcopen, fault, exit>>
 
 \* fmt -c: compare, never write; the next file only after a formatted one
 CheckMode == /\ Running /\ pc = "parsed" /\ op \in {"check", "checkstdin"}
              /\ IF kind # "fmtd" THEN pc' = "abort" /\ cur' = cur
                 ELSE IF cur < Len(files) THEN pc' = "start" /\ cur' = cur + 1
                 ELSE pc' = "done" /\ cur' = cur
-             /\ UNCHANGED <<op, files, omode, target, temp, srcopen, fault, exit>>
+             /\ UNCHANGED <<variant, op, files, omode, target, temp, srcopen, fault, exit>>
 
 \* fmt -w on a file that is already formatted may skip the rewrite
 NoChange == /\ Running /\ pc = "parsed" /\ op = "write" /\ kind = "fmtd" /\ pc' = "done"
-            /\ UNCHANGED <<op, files, cur, omode, target, temp, srcopen, fault, exit>>
+            /\ UNCHANGED <<variant, op, files, cur, omode, target, temp, srcopen, fault, exit>>
 
 CreateTemp(m) == /\ CallEnabled("create_tmp")
                  /\ temp' = [exists |-> TRUE, content |-> "empty", mode |-> m, open |-> TRUE]
                  /\ pc' = "created"
-                 /\ UNCHANGED <<op, files, cur, omode, target, srcopen, fault, exit>>
+                 /\ UNCHANGED <<variant, op, files, cur, omode, target, srcopen, fault, exit>>
 WritePart == /\ CallEnabled("write_tmp") /\ temp' = [temp EXCEPT !.content = "partial"]
-             /\ UNCHANGED <<op, files, cur, omode, target, srcopen, pc, fault, exit>>
+             /\ UNCHANGED <<variant, op, files, cur, omode, target, srcopen, pc, fault, exit>>
 WriteAll  == /\ CallEnabled("write_tmp") /\ temp' = [temp EXCEPT !.content = "fmt"] /\ pc' = "written"
-             /\ UNCHANGED <<op, files, cur, omode, target, srcopen, fault, exit>>
+             /\ UNCHANGED <<variant, op, files, cur, omode, target, srcopen, fault, exit>>
 Chmod(m)  == /\ CallEnabled("chmod_tmp") /\ temp' = [temp EXCEPT !.mode = m]
-             /\ UNCHANGED <<op, files, cur, omode, target, srcopen, pc, fault, exit>>
+             /\ UNCHANGED <<variant, op, files, cur, omode, target, srcopen, pc, fault, exit>>
 CloseTmp  == /\ CallEnabled("close_tmp") /\ temp' = [temp EXCEPT !.open = FALSE]
-             /\ UNCHANGED <<op, files, cur, omode, target, srcopen, pc, fault, exit>>
+             /\ UNCHANGED <<variant, op, files, cur, omode, target, srcopen, pc, fault, exit>>
 \* the only step that changes the target: it takes over content AND mode of the temp file
 Rename    == /\ CallEnabled("rename")
-             /\ (Variant = "intended" => temp.mode = omode)   \* the mode was restored (Chmod) before
+             /\ (variant = "intended" => temp.mode = omode)   \* the mode was restored (Chmod) before
              /\ target' = [exists |-> TRUE, content |-> temp.content, mode |-> temp.mode]
              /\ temp' = NoTemp /\ pc' = "done"
-             /\ UNCHANGED <<op, files, cur, omode, srcopen, fault, exit>>
+             /\ UNCHANGED <<variant, op, files, cur, omode, srcopen, fault, exit>>
 Cleanup   == /\ CallEnabled("unlink_tmp") /\ temp' = NoTemp /\ pc' = "abort"
-             /\ UNCHANGED <<op, files, cur, omode, target, srcopen, fault, exit>>
+             /\ UNCHANGED <<variant, op, files, cur, omode, target, srcopen, fault, exit>>
 Exit(s)   == /\ CallEnabled("exit")
              /\ \/ s = "zero" /\ pc = "done"
                 \/ s = "nonzero" /\ Aborting
              /\ exit' = s
-             /\ UNCHANGED <<op, files, cur, omode, target, temp, srcopen, pc, fault>>
+             /\ UNCHANGED <<variant, op, files, cur, omode, target, temp, srcopen, pc, fault>>
 
 \* Variant "inplace" only: O_TRUNC open of the target, then write it (what a naive fmt -w does)
-TruncTarget == /\ Running /\ Variant = "inplace" /\ pc = "parsed" /\ op = "write"
+TruncTarget == /\ Running /\ variant = "inplace" /\ pc = "parsed" /\ op = "write"
                /\ target' = [target EXCEPT !.content = "empty"] /\ pc' = "created"
-               /\ UNCHANGED <<op, files, cur, omode, temp, srcopen, fault, exit>>
-WriteTarget == /\ Running /\ Variant = "inplace" /\ pc = "created" /\ ~temp.exists
+               /\ UNCHANGED <<variant, op, files, cur, omode, temp, srcopen, fault, exit>>
+WriteTarget == /\ Running /\ variant = "inplace" /\ pc = "created" /\ ~temp.exists
                /\ \/ target' = [target EXCEPT !.content = "partial"] /\ pc' = pc
                   \/ target' = [target EXCEPT !.content = "fmt"] /\ pc' = "done"
-               /\ UNCHANGED <<op, files, cur, omode, temp, srcopen, fault, exit>>
+               /\ UNCHANGED <<variant, op, files, cur, omode, temp, srcopen, fault, exit>>
 
 ---------------------------------------------------------------------------
 (* faults *)
@@ -176,13 +182,13 @@ Fail(c, e) ==
   /\ IF c = "write_tmp"      \* a failing write may have written a part
      THEN temp' \in {temp, [temp EXCEPT !.content = "partial"]}
      ELSE temp' = temp
-  /\ UNCHANGED <<op, files, cur, omode, target, srcopen, exit>>
+  /\ UNCHANGED <<variant, op, files, cur, omode, target, srcopen, exit>>
 
 Kill(c) ==
   /\ CallEnabled(c) /\ fault = NoFault
   /\ fault' = [type |-> "kill", call |-> c, errno |-> "-"]
   /\ exit' = "killed"
-  /\ UNCHANGED <<op, files, cur, omode, target, temp, srcopen, pc>>
+  /\ UNCHANGED <<variant, op, files, cur, omode, target, temp, srcopen, pc>>
 
 Step ==
   \/ OpenSrc \/ StatSrc \/ ReadSrc \/ ReadStdin \/ CloseSrc \/ StatTgt \/ Other
@@ -212,6 +218,12 @@ TypeOK ==
 Atomic == /\ target.exists
           /\ target.content \in {"orig", "fmt"}
           /\ target.mode = omode
+AtomicIntended == variant = "intended" => Atomic
+\* sanity: the invariant can fail.  States of the two deviating protocols that violate Atomic at the end of a
+\* run are printed; the driver demands at least one witness per deviating variant.
+Refuted == (variant # "intended" /\ ~Atomic /\ exit \in {"zero", "killed"} /\ fault.call \in {"-", "exit", "other"})
+             => PrintT(ToJson([refuted |-> variant, omode |-> omode, content |-> target.content,
+                               mode |-> target.mode, exit |-> exit, fault |-> fault]))
 
 \* a file that does not parse is left untouched, exit status non-zero
 ParseFailSafe == (op = "write" /\ kind = "bad") => (target = Target0(omode) /\ exit # "zero")
@@ -229,11 +241,11 @@ ExitTruth == op = "write" =>
                 /\ exit = "zero" => (target.content = "fmt" \/ kind = "fmtd")
                 /\ (exit = "nonzero" /\ fault = NoFault) => kind = "bad"
 \* the target changes in one step, from orig to fmt, and only by the rename
-OnlyRename == [][target' # target => (target.content = "orig" /\ target'.content = "fmt" /\ temp.exists /\ ~temp'.exists)]_vars
+OnlyRename == [][(variant = "intended" /\ target' # target) => (target.content = "orig" /\ target'.content = "fmt" /\ temp.exists /\ ~temp'.exists)]_vars
 
 ---------------------------------------------------------------------------
 (* direction A: every terminal state is one expected outcome of one schedule *)
 CaseJson == [op |-> op, files |-> files, omode |-> omode, fault |-> fault,
              expect |-> [content |-> target.content, mode |-> target.mode, exit |-> exit]]
-Emit == exit # "none" => PrintT(ToJson(CaseJson))
+Emit == (exit # "none" /\ variant = "intended") => PrintT(ToJson(CaseJson))
 =============================================================================
